@@ -1,5 +1,6 @@
 import JunoModel.Common.Proto
 import JunoModel.C09.Model
+import JunoModel.C09.ModelRpc
 /-!
 Line-protocol driver for the C09 model (`lake build c09drv`). Numbers are hexadecimal.
 
@@ -31,6 +32,23 @@ Line-protocol driver for the C09 model (`lake build c09drv`). Numbers are hexade
   dump                P=[persisted window starts] S=<snapshot from/next|none> F=<retention floor> R=<running from/next> C=[cache keys, MRU first] H=<chain length>
   explain B           which structure serves block B's window in the marked state, and does it
                       cover B's header bloom                                                  -> running|cache|persisted|none sound|stale
+
+Round 5 (the RPC layer, `ModelRpc.lean`); STR = `-` | code points (hex) joined by `,`:
+  tokparse STR        ContinuationToken.FromString                                            -> ok <b>-<p> | err
+  tokprint B P        ContinuationToken.String                                                -> <decimal>-<decimal>
+  rpc API FROM TO ADDRS KEYS TOK CHUNK LIMIT L1 BASE PRE
+                      starknet_getEvents of API = v8|v9|v10; FROM / TO = `-` (omitted) | n<hex> | h<hex> (hash of
+                      that block) | hx (unknown hash) | latest | pre | l1; TOK = STR; L1 = `-` | hex    -> as `q`, or err:rpc:<class>
+  subscribe API ID ADDRS KEYS L1 TOL   SubscribeEvents up to the creation of the subscription; ID = `-` | latest | n<hex> |
+                      h<hex> | hx; TOL = 0|1 (missing L1 head tolerated)                    -> ok <start> <latest> <l1|-> | err:…
+  subreplay ADDRS KEYS START LATEST L1   the historical replay with finality tags              -> <b.t.i/L1|L2,…|-> | err
+  live ADDRS KEYS NUM BLOOM TXS          matchingEvents of a new head                           -> <b.t.i,…|->
+  pcreset | pcclear   new subscription / onReorg (deduper cleared)                            -> ok
+  pc ADDRS KEYS NUM IDENT HASHES BLOOM TXS   onPreConfirmed: what is sent                     -> <b.t.i,…|->
+  marksent NUM IDENT H T I   PreConfirmedDeduper.MarkSent                                     -> 0|1
+  cacheset W,W,…      AggregatedBloomFilterCache.SetMany with the persisted windows starting at W, …        -> ok | err:notfound
+  v8sub LATEST | v8reorg START   rpc v8 subscription: created at head LATEST / reorg notification     -> ok
+  v8head ADDRS KEYS NUM          rpc v8 onNewHead: the events notified                              -> <b.t.i,…|-> | err
 -/
 open Juno.Proto Juno.C09
 
@@ -39,6 +57,8 @@ structure St where
   node : Node
   mark : Node
   saved : Node
+  dd : Dedup := Dedup.init
+  v8 : V8Sub := ⟨0⟩
 
 def cfg0 : Cfg := ⟨8192, 16, false, false, false, false⟩
 
@@ -136,6 +156,55 @@ def storeN (cfg : Cfg) : Nat → Node → Node × Option Err
     | (n', none) => storeN cfg k n'
     | r => r
 
+def cps? (s : String) : Option (List Nat) :=
+  if s == "-" then some [] else (s.splitOn ",").mapM hexToNat?
+
+def cpsStr (l : List Nat) : String := String.ofList (l.map Char.ofNat)
+
+def api? : String → Option Api
+  | "v8" => some .v8
+  | "v9" => some .v9
+  | "v10" => some .v10
+  | _ => none
+
+/-- `some none` = omitted. -/
+def blockId? (s : String) : Option (Option BlockId) :=
+  if s == "-" then some none
+  else if s == "latest" then some (some .latest)
+  else if s == "pre" then some (some .preConfirmed)
+  else if s == "l1" then some (some .l1Accepted)
+  else if s == "hx" then some (some (.hash none))
+  else match s.toList with
+    | 'n' :: r => (hexToNat? (String.ofList r)).map (fun k => some (.number k))
+    | 'h' :: r => (hexToNat? (String.ofList r)).map (fun k => some (.hash (some k)))
+    | _ => none
+
+def subId? (s : String) : Option (Option SubId) :=
+  if s == "-" then some none
+  else if s == "latest" then some (some .latest)
+  else if s == "hx" then some (some (.hash none))
+  else match s.toList with
+    | 'n' :: r => (hexToNat? (String.ofList r)).map (fun k => some (.number k))
+    | 'h' :: r => (hexToNat? (String.ofList r)).map (fun k => some (.hash (some k)))
+    | _ => none
+
+def optNat? (s : String) : Option (Option Nat) :=
+  if s == "-" then some none else (hexToNat? s).map some
+
+def showRpcErr : RpcErr → String
+  | .invalidParams => "err:rpc:invalidparams"
+  | .pageTooBig => "err:rpc:pagetoobig"
+  | .tooManyKeys => "err:rpc:toomanykeys"
+  | .internal => "err:rpc:internal"
+  | .badToken => "err:rpc:badtoken"
+  | .blockNotFound => "err:rpc:blocknotfound"
+  | .tooManyBlocksBack => "err:rpc:toomanyblocksback"
+  | .data e => showErr e
+
+def showRpc : RpcRes → String
+  | .ok evs t => s!"ok {showEms evs} tok={if t.isEmpty then "0-0" else cpsStr t}"
+  | .err e => showRpcErr e
+
 def bool? (s : String) : Option Bool :=
   if s == "1" then some true else if s == "0" then some false else none
 
@@ -146,7 +215,7 @@ def step (st : St) (line : String) : St × String :=
     | some w, some c, some a, some b, some d, some e =>
       if w == 0 || c == 0 then (st, "bad-op") else
       let cfg : Cfg := ⟨w, c, a, b, d, e⟩
-      (⟨cfg, Node.init, Node.init, st.saved⟩, "ok")
+      (⟨cfg, Node.init, Node.init, st.saved, Dedup.init, ⟨0⟩⟩, "ok")
     | _, _, _, _, _, _ => (st, "bad-op")
   | ["store", bl, ts] =>
     match items? bl, txs? ts with
@@ -239,6 +308,83 @@ def step (st : St) (line : String) : St × String :=
     match natList? a ",", keysF? k, hexToNat? fr, hexToNat? to with
     | some a, some k, some fr, some to => (st, showEms (naive ⟨a, k⟩ st.node.chain fr to))
     | _, _, _, _ => (st, "bad-op")
+  | ["tokparse", t] =>
+    match cps? t with
+    | some t => (st, match parseTok t with | some tk => s!"ok {tk.b}-{tk.p}" | none => "err")
+    | none => (st, "bad-op")
+  | ["tokprint", b, p] =>
+    match hexToNat? b, hexToNat? p with
+    | some b, some p => (st, cpsStr (printTok ⟨b, p⟩))
+    | _, _ => (st, "bad-op")
+  | ["rpc", api, fr, to, a, k, tok, ch, li, l1, base, pre] =>
+    match api? api, blockId? fr, blockId? to, natList? a ",", keysF? k, cps? tok, hexToNat? ch, hexToNat? li, optNat? l1,
+        hexToNat? base, pre? pre with
+    | some api, some fr, some to, some a, some k, some tok, some ch, some li, some l1, some base, some pre =>
+      let r := rpcEvents api st.cfg st.node ⟨l1, li, base, pre, false⟩ ⟨fr, to, a, k, tok, ch⟩
+      ({ st with node := r.1 }, showRpc r.2)
+    | _, _, _, _, _, _, _, _, _, _, _ => (st, "bad-op")
+  | ["subscribe", api, id, a, k, l1, tol] =>
+    match api? api, subId? id, natList? a ",", keysF? k, optNat? l1, bool? tol with
+    | some api, some id, some a, some k, some l1, some tol =>
+      (st, match subscribeEvents api st.node ⟨l1, 0, 0, [], tol⟩ a k id with
+        | .ok (s, l, h) => s!"ok {s} {l} {match h with | some h => toString h | none => "-"}"
+        | .error e => showRpcErr e)
+    | _, _, _, _, _, _ => (st, "bad-op")
+  | ["subreplay", a, k, s, l, l1] =>
+    match natList? a ",", keysF? k, hexToNat? s, hexToNat? l, optNat? l1 with
+    | some a, some k, s?, some l, some l1 =>
+      match s? with
+      | none => (st, "bad-op")
+      | some s =>
+        let f : Filter := ⟨a, k⟩
+        let fuel := (naive f st.node.chain s l).length + st.node.chain.length + 2
+        (st, match subReplay st.cfg st.node f s l fuel with
+          | none => "err"
+          | some evs =>
+            if evs.isEmpty then "-" else
+            ",".intercalate (evs.map fun e => s!"{e.block}.{e.tx}.{e.idx}/{if onL1 l1 e.block then "L1" else "L2"}"))
+    | _, _, _, _, _ => (st, "bad-op")
+  | ["live", a, k, num, bl, ts] =>
+    match natList? a ",", keysF? k, hexToNat? num, items? bl, txs? ts with
+    | some a, some k, some num, some bl, some ts => (st, showEms (matchingEvents ⟨a, k⟩ num ⟨ts, bl⟩))
+    | _, _, _, _, _ => (st, "bad-op")
+  | ["cacheset", ws] =>
+    match natList? ws "," with
+    | some ws =>
+      match ws.mapM (fun w => st.node.persisted.lookup w) with
+      | some aggs => ({ st with node := { st.node with cache := setMany st.cfg.cap st.node.cache aggs } }, "ok")
+      | none => (st, "err:notfound")
+    | none => (st, "bad-op")
+  | ["v8sub", l] =>
+    match hexToNat? l with
+    | some l => ({ st with v8 := v8Start l }, "ok")
+    | none => (st, "bad-op")
+  | ["v8reorg", s] =>
+    match hexToNat? s with
+    | some s => ({ st with v8 := v8OnReorg st.v8 s }, "ok")
+    | none => (st, "bad-op")
+  | ["v8head", a, k, num] =>
+    match natList? a ",", keysF? k, hexToNat? num with
+    | some a, some k, some num =>
+      let f : Filter := ⟨a, k⟩
+      let fuel := (naive f st.node.chain st.v8.next num).length + st.node.chain.length + 2
+      let r := v8OnNewHead st.cfg st.node f st.v8 num fuel
+      ({ st with v8 := r.1 }, match r.2 with | some evs => showEms evs | none => "err")
+    | _, _, _ => (st, "bad-op")
+  | ["pcreset"] => ({ st with dd := Dedup.init }, "ok")
+  | ["pcclear"] => ({ st with dd := st.dd.clear }, "ok")
+  | ["pc", a, k, num, ident, hs, bl, ts] =>
+    match natList? a ",", keysF? k, hexToNat? num, hexToNat? ident, natList? hs ",", items? bl, txs? ts with
+    | some a, some k, some num, some ident, some hs, some bl, some ts =>
+      let r := onPreConfirmed ⟨a, k⟩ st.dd num ident hs ⟨ts, bl⟩
+      ({ st with dd := r.1 }, showEms r.2)
+    | _, _, _, _, _, _, _ => (st, "bad-op")
+  | ["marksent", num, ident, h, t, i] =>
+    match hexToNat? num, hexToNat? ident, hexToNat? h, hexToNat? t, hexToNat? i with
+    | some num, some ident, some h, some t, some i =>
+      let r := st.dd.markSent num ident (h, t, i)
+      ({ st with dd := r.1 }, if r.2 then "1" else "0")
+    | _, _, _, _, _ => (st, "bad-op")
   | ["dump"] => (st, dump st.node)
   | ["explain", b] =>
     match hexToNat? b with
@@ -246,4 +392,4 @@ def step (st : St) (line : String) : St × String :=
     | none => (st, "bad-op")
   | _ => (st, "bad-op")
 
-def main : IO Unit := loop step ⟨cfg0, Node.init, Node.init, Node.init⟩
+def main : IO Unit := loop step ⟨cfg0, Node.init, Node.init, Node.init, Dedup.init, ⟨0⟩⟩
